@@ -577,6 +577,226 @@ theorem single_via_retraversal_failure_witness :
       [0, 1, 3] [3, 1, 0] [1, 2]) = .ok [[0, 1]] :=
   Example.missingDelay_runs
 
+/-! ## Configuration and the remaining arms of the anchor files
+
+`KspTerminationCriteria` and `RouteSimilarityFunction` as deserialised from the `[algorithm]`
+section, `Display`, the decision arithmetic for every `u64`, `rank_similarity` / `is_similar`, the
+`SearchAlgorithm` configuration (`k`, `underlying`, `similarity`, `termination`; nested), the
+refused reverse query, and the arms of the code that can never execute. -/
+
+/-- `Factor`: stop at exactly `k` routes, provided `k ≤ factor * k` — i.e. `k = 0` or `factor ≥ 1` —
+for EVERY `factor`, `k`, `size` (no wrap-around: the repaired code multiplies saturating) -/
+theorem factor_terminate_iff (f k n : Nat) :
+    (KspTerm.factor f).terminate k n = true ↔ n = k ∧ (k = 0 ∨ 1 ≤ f) := by
+  simp only [KspTerm.terminate, Bool.and_eq_true, beq_iff_eq, decide_eq_true_eq]
+  constructor
+  · rintro ⟨rfl, h⟩
+    refine ⟨rfl, ?_⟩
+    by_contra hc
+    have hf : f = 0 := by omega
+    subst hf
+    omega
+  · rintro ⟨rfl, h | h⟩
+    · subst h; simp
+    · exact ⟨rfl, Nat.le_mul_of_pos_left _ (by omega)⟩
+
+/-- the saturating product decides `factor * size ≥ k` exactly for every `k` a `usize` can hold -/
+theorem saturating_mul_decides (f n k : Nat) (hk : k < 2 ^ 64) :
+    k ≤ min (f * n) (2 ^ 64 - 1) ↔ k ≤ f * n := by
+  constructor
+  · intro h; exact le_trans h (min_le_left _ _)
+  · intro h; exact le_min h (by omega)
+
+/-- COUNTEREXAMPLE (the code before 7811e56, release build): the wrapping product `factor * size mod
+2^64` takes the wrong decision — factor 2^63, k = size = 2 wraps to 0, so the criterion never stopped
+the search although `k ≤ factor * size` (debug builds panicked) -/
+theorem factor_wrapping_counterexample :
+    ∃ f n k : Nat, f < 2 ^ 64 ∧ k < 2 ^ 64 ∧ n = k ∧ k ≤ f * n ∧ ¬ k ≤ (f * n) % 2 ^ 64 :=
+  ⟨2 ^ 63, 2, 2, by decide, by decide, rfl, by decide, by decide⟩
+
+/-- in Yen's `while accepted.len() < k` no criterion can fire: `terminate_search` needs
+`accepted.len() = k` (the `break` of `yens_algorithm.rs` is dead code) -/
+theorem yens_criterion_never_fires (t : KspTerm) {k n : Nat} (h : n < k) : t.terminate k n = false := by
+  cases ht : t.terminate k n with
+  | false => rfl
+  | true => have := terminate_length ht; omega
+
+/-- `KspTerminationCriteria` from an object of the configuration: decided by the string under
+`"type"`; `max` / `factor` must be unsigned integers; unknown keys are ignored -/
+theorem term_config_object (kvs : List (String × Json)) :
+    (Json.lookup kvs "type" = some (.str "exact") → KspTerm.ofJson (.obj kvs) = some .exact) ∧
+    (Json.lookup kvs "type" = some (.str "max_iteration") →
+      KspTerm.ofJson (.obj kvs) = ((Json.lookup kvs "max").bind Json.asU64?).map .maxIteration) ∧
+    (Json.lookup kvs "type" = some (.str "factor") →
+      KspTerm.ofJson (.obj kvs) = ((Json.lookup kvs "factor").bind Json.asU64?).map .factor) ∧
+    (Json.lookup kvs "type" = none → KspTerm.ofJson (.obj kvs) = none) ∧
+    (∀ t, Json.lookup kvs "type" = some (.str t) → t ≠ "exact" → t ≠ "max_iteration" →
+      t ≠ "factor" → KspTerm.ofJson (.obj kvs) = none) := by
+  refine ⟨?_, ?_, ?_, ?_, ?_⟩
+  · intro h; simp [KspTerm.ofJson, tagged, h, Content.arity]
+  · intro h
+    simp only [KspTerm.ofJson, tagged, h, Content.arity, Content.req]
+    cases Json.lookup kvs "max" <;> simp
+  · intro h
+    simp only [KspTerm.ofJson, tagged, h, Content.arity, Content.req]
+    cases Json.lookup kvs "factor" <;> simp
+  · intro h; simp [KspTerm.ofJson, tagged, h]
+  · intro t h h1 h2 h3
+    simp [KspTerm.ofJson, tagged, h, h1, h2, h3]
+
+/-- the sequence form serde also accepts: the tag followed by exactly the variant's fields -/
+theorem term_config_sequence (xs : List Json) :
+    KspTerm.ofJson (.arr (.str "exact" :: xs)) = (if xs.length = 0 then some .exact else none) ∧
+    KspTerm.ofJson (.arr (.str "max_iteration" :: xs)) =
+      (if xs.length = 1 then (xs[0]?.bind Json.asU64?).map .maxIteration else none) ∧
+    KspTerm.ofJson (.arr (.str "factor" :: xs)) =
+      (if xs.length = 1 then (xs[0]?.bind Json.asU64?).map .factor else none) := by
+  refine ⟨?_, ?_, ?_⟩
+  · simp [KspTerm.ofJson, tagged, Content.arity]
+  · simp only [KspTerm.ofJson, tagged, Content.arity, Content.req]
+    by_cases h : xs.length = 1
+    · simp only [h, beq_self_eq_true, Bool.not_true, if_true]
+      cases xs[0]? <;> simp
+    · simp [h]
+  · simp only [KspTerm.ofJson, tagged, Content.arity, Content.req]
+    by_cases h : xs.length = 1
+    · simp only [h, beq_self_eq_true, Bool.not_true, if_true]
+      cases xs[0]? <;> simp
+    · simp [h]
+
+/-- anything that is neither an object nor a sequence starting with a string is refused -/
+theorem term_config_untagged :
+    KspTerm.ofJson .null = none ∧ (∀ s, KspTerm.ofJson (.str s) = none) ∧
+    (∀ l b, KspTerm.ofJson (.num l b) = none) ∧ KspTerm.ofJson (.arr []) = none := by
+  refine ⟨rfl, fun _ => rfl, fun _ _ => rfl, rfl⟩
+
+example : (KspTerm.maxIteration 3).display = "terminate with 3 routes found" ∧
+    (KspTerm.factor 2).display = "terminate with k*2 routes found" ∧
+    KspTerm.exact.display = "terminate with up to k routes found" := by decide
+
+/-- **`test_similarity` = `is_similar ∘ rank_similarity`**, for every variant -/
+theorem similarity_test_is_decision_of_rank [HasSqrt α] (f : SimFn α) (edges : List (EdgeRec α))
+    (a b : List Nat) :
+    f.test edges a b = (match f.rank edges a b with
+                        | .error k => .error k
+                        | .ok r => .ok (f.isSimilar r)) :=
+  Ksp.SimFn.test_eq f edges a b
+
+/-- `AcceptAll` ranks every pair 0 and is never similar; the cosine variants are similar exactly when
+`threshold ≤ rank` -/
+theorem similarity_decision (thr r : α) (edges : List (EdgeRec α)) (a b : List Nat) [HasSqrt α] :
+    (SimFn.acceptAll : SimFn α).rank edges a b = .ok zero ∧
+    (SimFn.acceptAll : SimFn α).isSimilar r = false ∧
+    ((SimFn.edgeIdCosine thr).isSimilar r = true ↔ thr ≤ r) ∧
+    ((SimFn.distanceWeightedCosine thr).isSimilar r = true ↔ thr ≤ r) := by
+  refine ⟨rfl, rfl, ?_, ?_⟩ <;> simp [SimFn.isSimilar]
+
+/-- **the similarity functions never fail on routes of the graph** — so the `?` after
+`test_similarity` in both k-shortest-paths loops never propagates anything: candidate and accepted
+routes consist of edges of the edge list (`single_via_routes_valid`, `yens_routes_valid`) -/
+theorem similarity_never_fails_on_graph_edges [HasSqrt α] (f : SimFn α) (edges : List (EdgeRec α))
+    {a b : List Nat} (h : ∀ e ∈ a ++ b, ∃ er, edges[e]? = some er) :
+    (∃ r, f.rank edges a b = .ok r) ∧ ∃ x, f.test edges a b = .ok x :=
+  ⟨Ksp.SimFn.rank_ok f edges h, Ksp.SimFn.test_ok f edges h⟩
+
+/-- they fail only with the network error, only in the distance-weighted variant, only on an edge id
+outside the graph -/
+theorem similarity_fails_only_on_unknown_edge [HasSqrt α] (f : SimFn α) (edges : List (EdgeRec α))
+    {a b : List Nat} {k : ErrKind} (h : f.rank edges a b = .error k) :
+    k = .network ∧ (∃ thr, f = .distanceWeightedCosine thr) ∧ ∃ e ∈ a ++ b, edges[e]? = none :=
+  Ksp.SimFn.rank_error f edges h
+
+/-- **a reverse query is refused** by both k-shortest-paths algorithms (vfix bf52447: it used to be
+answered as a forward query), as is a query without destination -/
+theorem ksp_reverse_query_refused (c : Config α) (hrev : c.reverse = true) (gcRev : List α)
+    (sim : List Nat → List Nat → Except ErrKind Bool) (term : Option KspTerm) (kDefault : Nat)
+    (queryK : Option Json) (source : Nat) (target : Option Nat) (fs rs pops : List Nat)
+    (scheds : List (List Nat)) :
+    singleViaVertex c gcRev sim term kDefault queryK source target fs rs pops = .error .build ∧
+    (∃ e, yensVertex c sim term kDefault queryK source target scheds = .err e ∧ e = .build) := by
+  cases target with
+  | none => exact ⟨rfl, _, rfl, rfl⟩
+  | some t => simp [singleViaVertex, yensVertex, hrev]
+
+/-- **`SearchAlgorithm` from an object of the configuration**: `k` (an unsigned integer) and
+`underlying` are required, `similarity` and `termination` may be absent or `null` (defaults
+`AcceptAll` / `Exact` at run time), a malformed sub-section refuses the whole section -/
+theorem alg_config_object (num : Json → Option α) (d : Nat) (kvs : List (String × Json))
+    (htype : Json.lookup kvs "type" = some (.str "ksp_single_via")) :
+    (Json.lookup kvs "k" = none → AlgCfg.ofJson num (d + 1) (.obj kvs) = none) ∧
+    (Json.lookup kvs "underlying" = none → AlgCfg.ofJson num (d + 1) (.obj kvs) = none) ∧
+    (∀ kj, Json.lookup kvs "k" = some kj → kj.asU64? = none →
+      AlgCfg.ofJson num (d + 1) (.obj kvs) = none) ∧
+    (∀ kj k uj u, Json.lookup kvs "k" = some kj → kj.asU64? = some k →
+      Json.lookup kvs "underlying" = some uj → AlgCfg.ofJson num d uj = some u →
+      Json.lookup kvs "similarity" = none → Json.lookup kvs "termination" = none →
+      AlgCfg.ofJson num (d + 1) (.obj kvs) = some (.singleVia k u none none)) := by
+  have htag : tagged (.obj kvs) = some ("ksp_single_via", .fields kvs) := by simp [tagged, htype]
+  refine ⟨?_, ?_, ?_, ?_⟩
+  · intro h; simp [AlgCfg.ofJson, htag, Content.arity, Content.req, h]
+  · intro h
+    simp only [AlgCfg.ofJson, htag, Content.arity, Content.req, h]
+    cases Json.lookup kvs "k" <;> simp
+  · intro kj h1 h2
+    simp only [AlgCfg.ofJson, htag, Content.arity, Content.req, h1]
+    cases Json.lookup kvs "underlying" with
+    | none => simp
+    | some uj => simp only [h2]; simp
+  · intro kj k uj u h1 h2 h3 h4 h5 h6
+    simp [AlgCfg.ofJson, htag, Content.arity, Content.req, Content.opt, optOfJson, h1, h2, h3, h4,
+      h5, h6]
+
+/-- **a k-shortest-paths algorithm as `underlying` of single-via** (vfix bf52447): the nested
+algorithm's reverse run is refused, so the result is at most ONE route — the backtrack of the
+nested forward run's first tree, which is the forward tree of the innermost search: a contiguous
+loop-free walk origin ⇝ destination.  (Before the repair two forward trees were joined and routes
+that are not walks were returned, e.g. `0→1, 1→2, 5→2` on the two-way 2 × 3 grid.) -/
+theorem nested_single_via_shortest_alone {c : Config α} (hf : c.fwd.AdjConsistent)
+    {source t k : Nat} (hts : t ≠ source) {fs : List Nat} {fres : SearchResult α}
+    (hrun : runVertexOriented c.fwd.inst source (some t) fs = .ok fres)
+    {fr r : AlgResult α} (htree : fr.trees.head? = some fres.final.sol)
+    (h : shortestAlone c k source t fr = .ok r) :
+    r.routes.length ≤ 1 ∧ r.routes.length ≤ k ∧ r.trees = fr.trees ∧
+    ∀ route ∈ r.routes,
+      GWalk c.edges source (route.map (·.edge)) t ∧
+      (∃ vs, srcVertices c.fwd route = .ok vs ∧ vs.Nodup) ∧ (route.map (·.edge)).Nodup := by
+  unfold shortestAlone at h
+  rw [htree] at h
+  simp only at h
+  split at h
+  · cases h
+  · rename_i tsp hbt
+    cases h
+    obtain ⟨hinv, hedges⟩ := fwd_tree_of_run c hf hts hrun
+    obtain ⟨hw, hl, _⟩ := fwd_backtrack_walk' hinv hedges hbt
+    refine ⟨by simp [List.length_take], by simp [List.length_take], rfl, ?_⟩
+    intro route hroute
+    have := List.mem_of_mem_take hroute
+    simp only [List.mem_singleton] at this
+    subst this
+    obtain ⟨vs, hvs, hnd, hed⟩ := routeContainsLoop_false hl
+    exact ⟨hw, ⟨vs, hvs, hnd⟩, hed⟩
+
+/-- the first tree of a single-via or Yen result over Dijkstra / A* is the forward tree of the
+underlying search — the premise of `nested_single_via_shortest_alone` -/
+theorem ksp_first_tree_is_forward_tree {c : Config α} (hf : c.fwd.AdjConsistent) {g : List α}
+    {sim : List Nat → List Nat → Except ErrKind Bool} {term : KspTerm} {source target k : Nat}
+    {fs rs pops : List Nat} {scheds : List (List Nat)} :
+    (∀ fr, singleVia c g sim term source target k fs rs pops = .ok fr →
+      ∃ fres, runVertexOriented c.fwd.inst source (some target) fs = .ok fres ∧
+        fr.trees.head? = some fres.final.sol) ∧
+    (∀ fr, yens c sim term source target k scheds = .ok fr →
+      ∃ fres, runVertexOriented c.fwd.inst source (some target) (scheds.headD []) = .ok fres ∧
+        fr.trees.head? = some fres.final.sol) := by
+  constructor
+  · intro fr h
+    obtain ⟨fres, tsp, h1, _, ⟨_, rfl⟩ | ⟨rres, sol, it, _, _, rfl⟩⟩ := singleVia_ok h
+    · exact ⟨fres, h1, rfl⟩
+    · exact ⟨fres, h1, rfl⟩
+  · intro fr h
+    obtain ⟨fres, _, _, h1, _, _, _, ht⟩ := yens_ok hf h
+    exact ⟨fres, h1, by rw [ht]; rfl⟩
+
 /-! ## PART B — Yen's algorithm (`yens_algorithm::run`), as repaired
 
 The model (`Model/Ksp.lean`: `yens`, `yenWhile`, `yenFor`, `yenSpur`, `yenDissimilar`) follows the
